@@ -41,6 +41,17 @@ def g1(F, rep):
                 if r["k"] == "agg" and r.get("ak") == "array":
                     arr = [flow.describe(b, x, names=True) for x in r["ops"]]
     ok_sig = arr is not None and len(arr) == 2 and arr[0] == "var(src)[var(i)]" and re.match(r"^var\(src\)\[Add\(var\(i\), K1\)(\.0)?\]$", arr[1]) is not None
+    if not ok_sig and arr is not None and len(arr) == 2:
+        # window form: the two bytes of `src.windows(2)`'s element
+        for l in b.locals_named("sig"):
+            dd = b.single_def(l)
+            if dd and dd[2] == "call":
+                o = flow.origin(b, dd[3]["args"][0], through=("use",))
+                for _, _, r in o.exprs:
+                    if r["k"] == "agg" and r.get("ak") == "array" and len(r["ops"]) == 2:
+                        u = [flow.describe(b, x) for x in r["ops"]]
+                        W = r"^next\(.*windows\((deref\()?arg<&\[u8\]>\)?, K2\).*\)( as Some)?\.0\.1\[K%d\]$"
+                        ok_sig = re.match(W % 0, u[0]) is not None and re.match(W % 1, u[1]) is not None
     rep.add("G1", "signature=le16(src[i],src[i+1])", ok_sig, where, "sig := u16::from_le_bytes(%s)" % arr)
     got = {}
     for sb in sorted(b.normal_blocks()):
@@ -61,6 +72,11 @@ def g1(F, rep):
             if s["k"] == "assign" and s["r"]["k"] == "agg" and s["r"].get("adt") == "std::ops::Range":
                 rng = [flow.describe(b, x, names=True) for x in s["r"]["ops"]]
     ok = rng is not None and rng[0] in ("var(index)", "deref(var(index))") and re.match(r"^Sub\(len\(var\(src\)\), K1\)(\.0)?$", rng[1]) is not None
+    if not ok and rng is None:
+        # window form: every pair of adjacent bytes from *index on
+        idef = [flow.describe(b, {"l": l, "p": []}) for l in b.locals_named("i")]
+        ok = len(idef) == 1 and re.match(r"^next\((into_iter\()?skip\(enumerate\(windows\((deref\()?arg<&\[u8\]>\)?, K2\)\), (deref\()?arg<&mut usize>\)?\)\)?\)( as Some)?\.0\.0$", idef[0]) is not None
+        rng = idef
     rep.add("G1", "scan-range=index..len-1", ok, where, "for i in %s" % rng)
 
 
@@ -213,9 +229,9 @@ def g4(F, rep):
     pi = F.body(P + "idat_parse::parse_idat")
     iw = "%s:%s" % (pi.file, pi.line)
     ct = _var_def(pi, "chunk_type")
-    rep.add("G4", "png:type-at+4..+8", len(ct) == 1 and re.match(r"^index\(var\(png_idat_stream\), Range\{Add\(var\(pos\), K4\)(\.0)?, Add\(var\(pos\), K8\)(\.0)?\}\)$", ct[0]) is not None, iw, "chunk_type := %s" % ct)
+    rep.add("G4", "png:type-at+4..+8", len(ct) == 1 and re.match(r"^index\(var\(png_idat_stream\), Range\{Sum\(var\(pos\), K4\), Sum\(var\(pos\), K8\)\}\)$", flow.canon_sums(ct[0])) is not None, iw, "chunk_type := %s" % ct)
     ck = _var_def(pi, "chunk")
-    rep.add("G4", "png:data-at+8", len(ck) == 1 and re.match(r"^index\(var\(png_idat_stream\), Range\{Add\(var\(pos\), K8\)(\.0)?, Add\(Add\(var\(pos\), var\(chunk_len\)\)(\.0)?, K8\)(\.0)?\}\)$", ck[0]) is not None, iw, "chunk := %s" % ck)
+    rep.add("G4", "png:data-at+8", len(ck) == 1 and re.match(r"^index\(var\(png_idat_stream\), Range\{Sum\(var\(pos\), K8\), Sum\(var\(chunk_len\), var\(pos\), K8\)\}\)$", flow.canon_sums(ck[0])) is not None, iw, "chunk := %s" % ck)
     # the zlib stream is the concatenation of the *whole* payload of every chunk; header and Adler-32 are split off the
     # concatenation (chunk boundaries may fall anywhere, also inside the 2-byte header or the 4-byte checksum)
     ex = [flow.describe(pi, t["args"][1], names=True) for bb, t in pi.calls() if strip_generics(callee_def(t)).endswith("extend_from_slice")
@@ -244,7 +260,7 @@ def g4(F, rep):
         for dbb, idx, kind, payload in pi.defs(l):
             if kind == "assign" and payload["k"] in ("use",):
                 d = flow.describe(pi, payload["op"], names=True)
-                if re.match(r"^Add\(var\(pos\), Add\(var\(chunk_len\), K12\)(\.0)?\)(\.0)?$", d):
+                if re.match(r"^Sum\(var\(chunk_len\), var\(pos\), K12\)$", flow.canon_sums(d)):
                     stride = True
     rep.add("G4", "png:stride=len+12", stride, iw, "pos += chunk_len + 12")
     arrays = []
@@ -253,9 +269,9 @@ def g4(F, rep):
             o = flow.origin(pi, t["args"][0], through=("use",))
             for _, _, r in o.exprs:
                 if r["k"] == "agg" and r.get("ak") == "array":
-                    arrays.append([flow.describe(pi, x, names=True) for x in r["ops"]])
-    want_len = [r"^var\(png_idat_stream\)\[var\(pos\)\]$"] + [r"^var\(png_idat_stream\)\[Add\(var\(pos\), K%d\)(\.0)?\]$" % k for k in (1, 2, 3)]
-    want_crc = [r"^var\(png_idat_stream\)\[Add\(Add\(var\(pos\), var\(chunk_len\)\)(\.0)?, K%d\)(\.0)?\]$" % k for k in (8, 9, 10, 11)]
+                    arrays.append([flow.canon_sums(flow.describe(pi, x, names=True)) for x in r["ops"]])
+    want_len = [r"^var\(png_idat_stream\)\[var\(pos\)\]$"] + [r"^var\(png_idat_stream\)\[Sum\(var\(pos\), K%d\)\]$" % k for k in (1, 2, 3)]
+    want_crc = [r"^var\(png_idat_stream\)\[Sum\(var\(chunk_len\), var\(pos\), K%d\)\]$" % k for k in (8, 9, 10, 11)]
 
     def has(want):
         return any(len(a) == 4 and all(re.match(w, x) for w, x in zip(want, a)) for a in arrays)
@@ -456,11 +472,11 @@ def _is_drop_flag(b, op):
 _IDAT_DECISIONS = [
     (r"^Lt\(len\(var\(png_idat_stream\)\), K12\)$", "input shorter than one chunk frame"),
     (r"^ne\(index\(var\(png_idat_stream\), Range\{K4, K8\}\), const:.*\)$", "first chunk is not IDAT"),
-    (r"^Le\(Add\(var\(pos\), K12\)(\.0)?, len\(var\(png_idat_stream\)\)\)$", "loop: another chunk frame fits"),
+    (r"^Le\(Sum\(var\(pos\), K12\), len\(var\(png_idat_stream\)\)\)$", "loop: another chunk frame fits"),
     (r"^ne\(var\(chunk_type\), const:.*\)$", "next chunk is not IDAT: end of the run"),
-    (r"^Gt\(Add\(Add\(var\(pos\), var\(chunk_len\)\)(\.0)?, K12\)(\.0)?, len\(var\(png_idat_stream\)\)\)$", "chunk runs past the input: end of the run"),
+    (r"^Gt\(Sum\(var\(chunk_len\), var\(pos\), K12\), len\(var\(png_idat_stream\)\)\)$", "chunk runs past the input: end of the run"),
     (r"^(Eq|Ne)\(var\(chunk_len\), K0\)$", "empty chunk: end of the run (D10)"),
-    (r"^(Ne|Eq)\(.*from_be_bytes\(array\{var\(png_idat_stream\)\[Add\(Add\(var\(pos\), var\(chunk_len\)\)(\.0)?, K8\).*$", "the computed CRC (however it is computed) against the four stored CRC bytes"),
+    (r"^(Ne|Eq)\(.*from_be_bytes\(array\{var\(png_idat_stream\)\[Sum\(var\(chunk_len\), var\(pos\), K8\).*$", "the computed CRC (however it is computed) against the four stored CRC bytes"),
     (r"^(Gt|Ge)\(var\(deflate_info_dump_level\), K\d+\)$", "logging"),
     (r"^Lt\(len\(var\(deflate_stream\)\), K6\)$", "payload shorter than zlib header + Adler-32"),
 ]
@@ -481,7 +497,7 @@ def g8(F, rep):
         dd = b.single_def(p["l"]) if p is not None and not p["p"] else None
         if dd and dd[2] == "assign" and dd[3]["k"] == "discr":
             continue                     # match on an enum / Option (iterator plumbing)
-        d = flow.describe(b, st["d"], names=True)
+        d = flow.canon_sums(flow.describe(b, st["d"], names=True))
         n += 1
         if not any(re.match(pat, d) for pat, _ in _IDAT_DECISIONS):
             extra.append("%s at %s" % (d[:120], b.where(sb)))
